@@ -17,6 +17,7 @@ STEPS = {
     "M": lambda p, t, u: t >> p.mutate(b=p.C.b + 1),
     "W": lambda p, t, u: t >> p.mutate(b=p.row_number(arrange=[p.C.a.nulls_last(), p.C.b.nulls_last(), p.C.g.nulls_last()])),
     "A": lambda p, t, u: t >> p.mutate(b=p.C.b.sum(partition_by=p.C.g)),
+    "N": lambda p, t, u: t >> p.mutate(b=p.C.b - p.C.b.max(partition_by=p.C.g)),
     "S": lambda p, t, u: t >> p.group_by(p.C.g) >> p.summarize(a=p.C.a.max(), b=p.C.b.sum()),
     "U": lambda p, t, u: t >> p.summarize(a=p.C.a.max(), b=p.C.b.sum(), g=p.count()),
     "L": lambda p, t, u: t >> p.arrange(p.C.a.nulls_last(), p.C.b.nulls_last(), p.C.g.nulls_last()) >> p.slice_head(2),
@@ -28,7 +29,7 @@ STEPS = {
     "P": lambda p, t, u: t >> p.select(p.C.g, p.C.b, p.C.a),
 }
 ALIAS = lambda p, t, u: t >> p.alias("z")  # noqa: E731
-KINDS = ["F", "M", "W", "A", "S", "U", "L", "O", "J", "K", "Q"]
+KINDS = ["F", "M", "W", "A", "N", "S", "U", "L", "O", "J", "K", "Q"]
 NEVER_NEED = ["F", "M", "O", "R", "P"]  # + one grouped summarize + final slice_head
 
 
